@@ -1,5 +1,6 @@
 import DustVerif.Proofs.KeyLemmas
 import DustVerif.Proofs.XcdrValEq
+import DustVerif.Props.C11
 /-! Property C12: the key hash is the big-endian XCDR serialization of the key members, zero-padded to 16 bytes when the
     key's MAXIMUM serialized size is at most 16 bytes, and its MD5 digest otherwise (DDS-XTypes 7.6.8, RTPS 9.6.3.8).
 
@@ -56,6 +57,35 @@ example : (handle Cfg.fixed tyKey17 (.struct [.num 1, .num 2, .num 3])).toOption
   decide +kernel
 
 /-! ### D16: the actual size decides -/
+/-! ### optional nested structures are not in the key (follow-up 3) -/
+/-- **C12, the key members of an OPTIONAL nested structure are not part of the key**: for EVERY keyed structure type,
+    every value, every optional non-key member `i` (in particular one of structure type with `@key` members of its own)
+    and every replacement value `w` (`.absent` = the member removed): the key holder, the big-endian key serialization,
+    the key hash / instance handle and the outcome of the real function are unchanged. Together with
+    `C11_optional_struct_not_in_key_holder_type` (the key-holder TYPE does not list those members) this is the coded
+    rule "optional nested structures contribute nothing to the key" (key_and_instance_handle.rs:27-29, 89-91). -/
+theorem C12_optional_nested_struct_not_in_key (cfg : Cfg) (x : Ext) (ms : KMs) (fs : List Val) (i : Nat) (w : Val)
+    (h : ms.optNonKeyAt i = true) :
+    keyHolder (.struct x ms) (.struct (fs.set i w)) = keyHolder (.struct x ms) (.struct fs) ∧
+    keyBytes cfg (.struct x ms) (.struct (fs.set i w)) = keyBytes cfg (.struct x ms) (.struct fs) ∧
+    handle cfg (.struct x ms) (.struct (fs.set i w)) = handle cfg (.struct x ms) (.struct fs) ∧
+    handleOutcome cfg (.struct x ms) (.struct (fs.set i w)) = handleOutcome cfg (.struct x ms) (.struct fs) := by
+  obtain ⟨hp, hh, ho⟩ := C11_optional_member_irrelevant cfg x ms fs i w h
+  refine ⟨?_, ?_, hh, ho⟩
+  · simp only [keyHolder, hp]
+  · simp only [keyBytes, keyHolder, hp]
+
+/-- the rule of `C12_rule_partial` is about the key WITHOUT the optional structure: `T { @key a: u64; @key b: u64;
+    @optional In n }` with `In { @key k: u64 }` has the maximum key size 16 (padded), not 24 (MD5), and the handle
+    does not contain the optional member's key `k = 9`. -/
+def tyOptKey16 : KTy := .struct .final (.cons 0 false false true (.prim .u64) (.cons 1 false false true (.prim .u64)
+  (.cons 5 true false false (.struct .final (.cons 6 false false true (.prim .u64) .nil)) .nil)))
+example : keyMaxSize tyOptKey16 = some 16 ∧
+    (handle Cfg.fixed tyOptKey16 (.struct [.num 1, .num 2, .struct [.num 9]])).toOption =
+      some [0, 0, 0, 0, 0, 0, 0, 1, 0, 0, 0, 0, 0, 0, 0, 2] ∧
+    (handle Cfg.fixed tyOptKey16 (.struct [.num 1, .num 2, .absent])).toOption =
+      some [0, 0, 0, 0, 0, 0, 0, 1, 0, 0, 0, 0, 0, 0, 0, 2] := by decide +kernel
+
 def tyKeyStr : KTy := .struct .final (.cons 0 false false true .str (.cons 1 false false false (.prim .u32) .nil))
 /-- D16: an (unbounded) string key: the maximum serialized size of the key is not bounded by 16, so the key hash has to
     be the MD5 digest for every value; the code zero-pads the key `"ab"` (7 bytes: `00 00 00 03 61 62 00`) because its
